@@ -451,6 +451,7 @@ def run(ctx):
                 ctx.fail("a call failed or returned another call's data under this interleaving", meta, got,
                          [ref[a] for a in args])
     two_operations(ctx)
+    mixed_style_port(ctx)
     lookup_walk_two_preemptions(ctx)
     sys.setswitchinterval(old_switch)
     ctx.sample({"style": "encoded", "scenario": "two-calls", "preempt_after_event": 1234})
@@ -536,6 +537,58 @@ def two_operations(ctx):
             if len(tr.sent) != 2 or bad or client.options.headers != {}:
                 ctx.fail("requests of concurrent calls do not each carry their own headers", meta,
                          bad or [len(tr.sent), client.options.headers], "one request per call, own SOAPAction")
+
+
+def mixed_style_wsdl():
+    W, T = wsdlkit.WNS, wsdlkit.TNS
+    return ('<?xml version="1.0"?><wsdl:definitions targetNamespace="%(W)s" xmlns:wsdl="http://schemas.xmlsoap.org/wsdl/" '
+            'xmlns:w="%(W)s" xmlns:x="%(T)s" xmlns:soap="http://schemas.xmlsoap.org/wsdl/soap/" '
+            'xmlns:xsd="http://www.w3.org/2001/XMLSchema"><wsdl:types><xsd:schema targetNamespace="%(T)s" '
+            'elementFormDefault="qualified"><xsd:element name="f"><xsd:complexType><xsd:sequence><xsd:element name="v" '
+            'type="xsd:string"/></xsd:sequence></xsd:complexType></xsd:element></xsd:schema></wsdl:types>'
+            '<wsdl:message name="fIn"><wsdl:part name="p" element="x:f"/></wsdl:message>'
+            '<wsdl:message name="gIn"><wsdl:part name="a" type="xsd:string"/></wsdl:message>'
+            '<wsdl:portType name="PT"><wsdl:operation name="f"><wsdl:input message="w:fIn"/></wsdl:operation>'
+            '<wsdl:operation name="g"><wsdl:input message="w:gIn"/></wsdl:operation></wsdl:portType>'
+            '<wsdl:binding name="B" type="w:PT"><soap:binding style="document" '
+            'transport="http://schemas.xmlsoap.org/soap/http"/>'
+            '<wsdl:operation name="f"><soap:operation soapAction="urn:act:f"/><wsdl:input><soap:body use="literal"/>'
+            '</wsdl:input></wsdl:operation>'
+            '<wsdl:operation name="g"><soap:operation soapAction="urn:act:g" style="rpc"/><wsdl:input>'
+            '<soap:body use="literal" namespace="urn:rpcns"/></wsdl:input></wsdl:operation></wsdl:binding>'
+            '<wsdl:service name="S"><wsdl:port name="P" binding="w:B"><soap:address location="http://h.invalid/mixed"/>'
+            '</wsdl:port></wsdl:service></wsdl:definitions>' % {"W": W, "T": T}).encode()
+
+
+def mixed_style_port(ctx):
+    """One port holding a document/literal and an rpc/literal operation, both in flight: each request is built by the
+    binding of its own operation (the element of the document operation; the operation wrapper in the soap:body
+    namespace with the unqualified part for the rpc one)."""
+    tr = wsdlkit.RecordingTransport(reply=None)
+    client = wsdlkit.client(mixed_style_wsdl(), transport=tr)
+    calls = [lambda: client.service.f("fv"), lambda: client.service.g("gv")]
+    for c in calls:
+        c()
+    res, total, errs = run_schedule(calls, {})
+    want = {"f": [[wsdlkit.TNS, "f"], [[[wsdlkit.TNS, "v"], "fv"]]], "g": [["urn:rpcns", "g"], [[[None, "a"], "gv"]]]}
+    for k in [None] + sorted(set(int(1 + i * (total / 2 - 1) / 12.0) for i in range(13))):
+        del tr.sent[:]
+        res, nev, errs = run_schedule(calls, {} if k is None else {k: 1})
+        meta = {"scenario": "mixed-style-port", "preempt_after_event": k}
+        ctx.case(common.canon(meta), True)
+        ctx.dist["schedule:mixed-style-port"] += 1
+        if errs or any(r is None or r[0] != "ok" for r in res):
+            ctx.fail("a call failed because another was in progress", meta, [errs, res], "both calls finish")
+            continue
+        got = {}
+        for sent in tr.sent:
+            try:
+                b = xmlread.find1(xmlread.parse(sent["message"]), "Body")["children"][0]
+                got[b["name"][1]] = [list(b["name"]), [[list(c["name"]), c.get("text")] for c in b["children"]]]
+            except Exception as e:
+                got["unreadable"] = repr(e)
+        if got != want:
+            ctx.fail("requests of concurrent calls are not each built by their own operation's binding", meta, got, want)
 
 
 def witness(ctx, k):
